@@ -18,8 +18,11 @@ OBLIGATIONS = [
         desc="Spans.len == cardinality, bool, (start,length) in spans <=> whole range held"),
     chx("spans_setops", "C37_h", "h_spans_setops", timeout={"quick": 90, "thorough": 1200},
         bounds={"quick": {"na": 1, "nb": 2}, "thorough": {"na": 2, "nb": 2}},
-        cases=[{"op": 0, "_label": "and"}, {"op": 1, "_label": "sub"}, {"op": 2, "_label": "add"}],
-        desc="Spans & - + on two arbitrary 2-span sets: pointwise and/andnot/or at probe p; operands unchanged"),
+        cases={"quick": [{"op": o, "na": a, "nb": b, "_label": "%s,%dx%d" % (l, a, b)}
+                         for (o, l) in ((0, "and"), (1, "sub"), (2, "add")) for (a, b) in ((1, 2), (2, 1))],
+               "thorough": [{"op": 0, "_label": "and"}, {"op": 1, "_label": "sub"}, {"op": 2, "_label": "add"}]},
+        desc="Spans & - + on two arbitrary sets (quick: <=1 x <=2 and <=2 x <=1 spans; thorough <=2 x <=2): "
+             "pointwise and/andnot/or at probe p; operands unchanged"),
     chx("dataspans_add", "C37_h", "h_dataspans_add", timeout=T,
         desc="DataSpans.add: byte at p is new data if in write else unchanged (later writes win); merged invariant kept"),
     chx("dataspans_remove", "C37_h", "h_dataspans_remove", timeout=T,
